@@ -42,7 +42,7 @@ Proof. intros H. apply nth_error_Some. rewrite H. discriminate. Qed.
 Definition pc_in (p : hpc) (l : list hpc) : bool :=
   existsb (fun q => match p, q with
                     | W0, W0 | W1, W1 | W2, W2 | Wwait, Wwait | W3, W3 | W4, W4 | W5, W5 | W6, W6
-                    | R0, R0 | Rwait, Rwait | R1, R1 | R2, R2 | R3, R3 | HDone, HDone | G0, G0 | G1, G1 | GDone, GDone => true
+                    | R0, R0 | Rwait, Rwait | R1, R1 | R2, R2 | R3, R3 | HDone, HDone | G0, G0 | G1, G1 | GDone, GDone | I0, I0 | I1, I1 | IDone, IDone => true
                     | _, _ => false end) l.
 
 Definition holder (g i : nat) (t : hthread) : bool :=
@@ -441,6 +441,22 @@ Proof.
   - unfold resz. cbn [hpc_]. rewrite Hp. reflexivity.
 Qed.
 
+Lemma step_I0 s i t o : HCInv s -> nth_error (hths s) i = Some t -> hpc_ t = I0 -> HCInv (hstep hidx s i o).
+Proof.
+  intros I Hi Hp. unfold hstep. rewrite Hi, Hp.
+  apply (inv_local s i t); try assumption; cbn [hpc_ hsnap hbi hkey pc_in existsb orb]; pcd.
+  - intros g b. unfold holder. cbn [hpc_]. rewrite Hp. reflexivity.
+  - unfold resz. cbn [hpc_]. rewrite Hp. reflexivity.
+Qed.
+Lemma step_I1 s i t o : HCInv s -> nth_error (hths s) i = Some t -> hpc_ t = I1 -> HCInv (hstep hidx s i o).
+Proof.
+  intros I Hi Hp. unfold hstep. rewrite Hi, Hp.
+  destruct (Nat.ltb (hbi t) (len_of s (hsnap t))); [destruct (lk s (hsnap t) (hbi t)); [exact I|]|];
+  (apply (inv_local s i t); try assumption; cbn [set_pc hpc_ hsnap hbi hkey pc_in existsb orb]; pcd;
+   [intros g b; unfold holder; cbn [set_pc hpc_]; rewrite Hp; reflexivity
+   |unfold resz; cbn [set_pc hpc_]; rewrite Hp; reflexivity]).
+Qed.
+
 Theorem HCInv_step s i o : HCInv s -> HCInv (hstep hidx s i o).
 Proof.
   intros I. destruct (nth_error (hths s) i) as [t|] eqn:Hi; [|unfold hstep; rewrite Hi; exact I].
@@ -462,6 +478,9 @@ Proof.
   - eapply step_G0; eassumption.
   - eapply step_G1; eassumption.
   - unfold hstep. rewrite Hi, Hp. exact I.
+  - eapply step_I0; eassumption.
+  - eapply step_I1; eassumption.
+  - unfold hstep. rewrite Hi, Hp. exact I.
 Qed.
 
 Lemma HCInv_run sched : forall s, HCInv s -> HCInv (hrun hidx s sched).
@@ -478,20 +497,20 @@ Qed.
 Lemma HCInv_init n0 ops : 1 <= n0 -> HCInv (hinit n0 ops).
 Proof.
   intros Hn.
-  assert (Hall : forall j t, nth_error (hths (hinit n0 ops)) j = Some t -> hpc_ t = W0 \/ hpc_ t = G0).
+  assert (Hall : forall j t, nth_error (hths (hinit n0 ops)) j = Some t -> pc_in (hpc_ t) [W0; G0; I0] = true).
   { intros j t Hj. apply nth_error_In in Hj. cbn [hinit hths] in Hj. apply in_map_iff in Hj.
-    destruct Hj as ([k [f|]] & <- & _); [left|right]; reflexivity. }
+    destruct Hj as ([k f|k|] & <- & _); reflexivity. }
   constructor.
   - cbn. lia.
   - cbn. constructor; [exact Hn|constructor].
   - intros g b. cbn [hinit lk hths]. apply hcnt_all_false. intros t Ht. apply in_map_iff in Ht.
-    destruct Ht as ([k [f|]] & <- & _); reflexivity.
+    destruct Ht as ([k f|k|] & <- & _); reflexivity.
   - cbn [hinit resizing hths]. apply hcnt_all_false. intros t Ht. apply in_map_iff in Ht.
-    destruct Ht as ([k [f|]] & <- & _); reflexivity.
-  - intros j t Hj Hp. destruct (Hall j t Hj) as [E|E]; rewrite E in Hp; discriminate Hp.
-  - intros j t Hj Hp. destruct (Hall j t Hj) as [E|E]; rewrite E in Hp; discriminate Hp.
-  - intros j t jr r Hj _ Hp. destruct (Hall j t Hj) as [E|E]; rewrite E in Hp; discriminate Hp.
-  - intros jr r Hjr Hp. destruct (Hall jr r Hjr) as [E|E]; rewrite E in Hp; discriminate Hp.
+    destruct Ht as ([k f|k|] & <- & _); reflexivity.
+  - intros j t Hj Hp. pose proof (Hall j t Hj) as E. destruct (hpc_ t); discriminate.
+  - intros j t Hj Hp. pose proof (Hall j t Hj) as E. rewrite Hp in E. discriminate E.
+  - intros j t jr r Hj _ Hp. pose proof (Hall j t Hj) as E. destruct (hpc_ t); discriminate.
+  - intros jr r Hjr Hp. pose proof (Hall jr r Hjr) as E. destruct (hpc_ r); discriminate.
   - intros k. reflexivity.
 Qed.
 
@@ -502,6 +521,14 @@ Definition dflt : Z -> option Z := fun _ => None.
 Definition applied (t : hthread) : bool :=
   pc_in (hpc_ t) [W5; W6; HDone] || (pc_in (hpc_ t) [R0; Rwait; R1; R2; R3] && negb (hretry t)).
 
+(* an iteration in progress: the buckets below [hbi] have been read; every key of those buckets was
+   yielded with the binding it had in the abstract map at index [hwitf k], not older than the iteration *)
+Definition iter_ok (s : hcstate) (t : hthread) : Prop :=
+  1 <= hst t <= length (hist s) /\ hsnap t <= hcur s /\ (hsnap t < hcur s -> hst t - 1 <= froz s (hsnap t)) /\
+  (hpc_ t = IDone -> len_of s (hsnap t) <= hbi t) /\
+  forall k, bidx_of hidx s (hsnap t) k < hbi t ->
+            hst t - 1 <= hwitf t k < length (hist s) /\ nth (hwitf t k) (hist s) dflt k = hyield t k.
+
 Record HRInv (s : hcstate) : Prop := {
   r_last : S (hcur s) = length (lens s);
   r_hist : 1 <= length (hist s);
@@ -511,7 +538,8 @@ Record HRInv (s : hcstate) : Prop := {
          1 <= hst t <= length (hist s) /\ hsnap t <= hcur s /\ (hsnap t < hcur s -> hst t - 1 <= froz s (hsnap t));
   r_done : forall j t, nth_error (hths s) j = Some t -> hpc_ t = GDone ->
          hst t - 1 <= hwit t < length (hist s) /\ nth (hwit t) (hist s) dflt (hkey t) = hres t;
-  r_app : forall j t, nth_error (hths s) j = Some t -> happ t = b2n (applied t)
+  r_app : forall j t, nth_error (hths s) j = Some t -> happ t = b2n (applied t);
+  r_it : forall j t, nth_error (hths s) j = Some t -> pc_in (hpc_ t) [I1; IDone] = true -> iter_ok s t
 }.
 
 Lemma hr_frame s s' i t t' :
@@ -521,9 +549,12 @@ Lemma hr_frame s s' i t t' :
   (hpc_ t' = G1 -> 1 <= hst t' <= length (hist s) /\ hsnap t' <= hcur s /\ (hsnap t' < hcur s -> hst t' - 1 <= froz s (hsnap t'))) ->
   (hpc_ t' = GDone -> hst t' - 1 <= hwit t' < length (hist s) /\ nth (hwit t') (hist s) dflt (hkey t') = hres t') ->
   happ t' = b2n (applied t') ->
+  (pc_in (hpc_ t') [I1; IDone] = true -> iter_ok s t') ->
   HRInv s'.
 Proof.
-  intros R Hi El Es Ec Esp Eh Ef Et H1 H2 H3. pose proof (nth_error_lt _ _ _ Hi) as Hlt.
+  intros R Hi El Es Ec Esp Eh Ef Et H1 H2 H3 H4. pose proof (nth_error_lt _ _ _ Hi) as Hlt.
+  assert (Eit : forall u, iter_ok s' u <-> iter_ok s u).
+  { intros u. unfold iter_ok, bidx_of, len_of. rewrite El, Ec, Eh, Ef. reflexivity. }
   constructor; rewrite ?El, ?Es, ?Ec, ?Esp, ?Eh, ?Ef, ?Et.
   - apply (r_last s R).
   - apply (r_hist s R).
@@ -532,12 +563,14 @@ Proof.
   - intros j u Hj Hp. thr Hj Hlt; [apply H1; exact Hp|apply (r_rd s R j u Hj Hp)].
   - intros j u Hj Hp. thr Hj Hlt; [apply H2; exact Hp|apply (r_done s R j u Hj Hp)].
   - intros j u Hj. thr Hj Hlt; [exact H3|apply (r_app s R j u Hj)].
+  - intros j u Hj Hp. apply Eit. thr Hj Hlt; [apply H4; exact Hp|apply (r_it s R j u Hj Hp)].
 Qed.
 
 Ltac frame_tac s i t R Hi Hp :=
   eapply (hr_frame s _ i t); [exact R|exact Hi|reflexivity|reflexivity|reflexivity|reflexivity|reflexivity|reflexivity|reflexivity
     |cbn [set_pc hpc_]; pcd|cbn [set_pc hpc_]; pcd
-    |unfold applied; cbn [set_pc hpc_ happ hretry]; rewrite (r_app s R i t Hi); unfold applied; rewrite Hp; reflexivity].
+    |unfold applied; cbn [set_pc hpc_ happ hretry]; rewrite (r_app s R i t Hi); unfold applied; rewrite Hp; reflexivity
+    |cbn [set_pc hpc_]; pcd].
 
 Lemma ret_pc_applied t : pc_in (hpc_ t) [Rwait; R3] = true -> applied (ret_pc t) = applied t.
 Proof. intros H. unfold applied, ret_pc. cbn [hpc_ hretry]. destruct (hpc_ t); try discriminate H; destruct (hretry t); reflexivity. Qed.
@@ -545,7 +578,8 @@ Proof. intros H. unfold applied, ret_pc. cbn [hpc_ hretry]. destruct (hpc_ t); t
 Ltac frame_ret s i t R Hi Hp :=
   eapply (hr_frame s _ i t); [exact R|exact Hi|reflexivity|reflexivity|reflexivity|reflexivity|reflexivity|reflexivity|reflexivity
     |ret_pcd t|ret_pcd t
-    |rewrite ret_pc_applied by (rewrite Hp; reflexivity); apply (r_app s R i t Hi)].
+    |rewrite ret_pc_applied by (rewrite Hp; reflexivity); apply (r_app s R i t Hi)
+    |intros Hq; exfalso; destruct (ret_pc_cases t) as [Erp|Erp]; rewrite Erp in Hq; discriminate Hq].
 
 Theorem HRInv_step s i o : HCInv s -> HRInv s -> HRInv (hstep hidx s i o).
 Proof.
@@ -575,6 +609,10 @@ Proof.
       rewrite app_length. split; [lia|]. rewrite app_nth1 by lia. exact H2.
     + intros j u Hj. thr Hj Hlt; [|apply (r_app s R j u Hj)]. unfold t5. cbn [happ hpc_].
       rewrite (r_app s R i t Hi). unfold applied. cbn [hpc_ hretry]. rewrite Hp. reflexivity.
+    + intros j u Hj Hpu. thr Hj Hlt; [discriminate Hpu|].
+      destruct (r_it s R j u Hj Hpu) as (H1 & H2 & H3 & H4 & H5). unfold iter_ok. cbn [lens stores lk hcur resizing spec hist froz hths].
+      rewrite app_length. split; [lia|]. split; [exact H2|]. split; [exact H3|]. split; [exact H4|].
+      intros k Hk. destruct (H5 k Hk) as [Hw Hv]. split; [lia|]. rewrite app_nth1 by lia. exact Hv.
   - (* W5 *) frame_tac s i t R Hi Hp.
   - (* W6 *) destruct o as [|o]; frame_tac s i t R Hi Hp.
   - (* R0 *) destruct (resizing s); [frame_tac s i t R Hi Hp|destruct o as [|o]; [cbv zeta|]; frame_tac s i t R Hi Hp].
@@ -596,36 +634,75 @@ Proof.
     + intros j u Hj Hpu. thr Hj Hlt; [discriminate Hpu|]. apply (r_done s R j u Hj Hpu).
     + intros j u Hj. thr Hj Hlt; [|apply (r_app s R j u Hj)]. unfold applied. cbn [set_pc happ hpc_ hretry].
       rewrite (r_app s R i t Hi). unfold applied. rewrite Hp. reflexivity.
+    + intros j u Hj Hpu. thr Hj Hlt; [discriminate Hpu|].
+      destruct (r_it s R j u Hj Hpu) as (H1 & H2 & H3 & H4 & H5). unfold iter_ok. cbn [lens stores lk hcur resizing spec hist froz hths].
+      assert (Hsl : hsnap u < length (lens s)) by lia.
+      split; [exact H1|]. split; [lia|]. split.
+      { intros _. destruct (Nat.eqb_spec (hsnap u) (hcur s)) as [E|Hne]; [lia|apply H3; lia]. }
+      split.
+      { intros Hd. rewrite len_of_app by exact Hsl. apply H4. exact Hd. }
+      intros k Hk. apply H5. unfold bidx_of in *. rewrite len_of_app in Hk by exact Hsl. exact Hk.
   - (* R3 *) frame_ret s i t R Hi Hp.
   - (* HDone *) exact R.
   - (* G0 *)
     eapply (hr_frame s _ i t); [exact R|exact Hi|reflexivity|reflexivity|reflexivity|reflexivity|reflexivity|reflexivity|reflexivity
-      |cbn [hpc_ hst hsnap]|cbn [hpc_]; pcd|unfold applied; cbn [hpc_ happ hretry]; rewrite (r_app s R i t Hi); unfold applied; rewrite Hp; reflexivity].
+      |cbn [hpc_ hst hsnap]|cbn [hpc_]; pcd|unfold applied; cbn [hpc_ happ hretry]; rewrite (r_app s R i t Hi); unfold applied; rewrite Hp; reflexivity
+      |cbn [hpc_]; pcd].
     intros _. pose proof (r_hist s R). split; [lia|]. split; lia.
   - (* G1 *)
     eapply (hr_frame s _ i t); [exact R|exact Hi|reflexivity|reflexivity|reflexivity|reflexivity|reflexivity|reflexivity|reflexivity
-      |cbn [hpc_]; pcd|cbn [hpc_ hst hwit hres hkey]|unfold applied; cbn [hpc_ happ hretry]; rewrite (r_app s R i t Hi); unfold applied; rewrite Hp; reflexivity].
+      |cbn [hpc_]; pcd|cbn [hpc_ hst hwit hres hkey]|unfold applied; cbn [hpc_ happ hretry]; rewrite (r_app s R i t Hi); unfold applied; rewrite Hp; reflexivity
+      |cbn [hpc_]; pcd].
     intros _. destruct (r_rd s R i t Hi Hp) as (H1 & H2 & H3). pose proof (r_hist s R).
     destruct (Nat.eqb_spec (hsnap t) (hcur s)) as [E|Hne].
     + split; [lia|]. rewrite E, (iv_spec s I). symmetry. apply (r_spec s R).
     + assert (Hl : hsnap t < hcur s) by lia. destruct (r_froz s R _ Hl) as [Hf Hst]. specialize (H3 Hl).
       split; [lia|]. symmetry. apply Hst.
   - (* GDone *) exact R.
+  - (* I0 *)
+    eapply (hr_frame s _ i t); [exact R|exact Hi|reflexivity|reflexivity|reflexivity|reflexivity|reflexivity|reflexivity|reflexivity
+      |cbn [hpc_]; pcd|cbn [hpc_]; pcd|unfold applied; cbn [hpc_ happ hretry]; rewrite (r_app s R i t Hi); unfold applied; rewrite Hp; reflexivity
+      |].
+    intros _. unfold iter_ok. cbn [hpc_ hst hsnap hbi hwitf hyield]. pose proof (r_hist s R).
+    split; [lia|]. split; [lia|]. split; [lia|]. split; [discriminate|]. intros k Hk. lia.
+  - (* I1 *)
+    assert (Hq : pc_in (hpc_ t) [I1; IDone] = true) by (rewrite Hp; reflexivity).
+    destruct (r_it s R i t Hi Hq) as (H1 & H2 & H3 & H4 & H5). pose proof (r_hist s R) as HH.
+    destruct (Nat.ltb_spec (hbi t) (len_of s (hsnap t))) as [Hlb|Hge].
+    + destruct (lk s (hsnap t) (hbi t)); [exact R|].
+      eapply (hr_frame s _ i t); [exact R|exact Hi|reflexivity|reflexivity|reflexivity|reflexivity|reflexivity|reflexivity|reflexivity
+        |cbn [hpc_]; pcd|cbn [hpc_]; pcd|unfold applied; cbn [hpc_ happ hretry]; rewrite (r_app s R i t Hi); unfold applied; rewrite Hp; reflexivity
+        |].
+      intros _. unfold iter_ok. cbn [hpc_ hst hsnap hbi hwitf hyield].
+      split; [exact H1|]. split; [exact H2|]. split; [exact H3|]. split; [discriminate|].
+      intros k Hk. destruct (Nat.eqb_spec (bidx_of hidx s (hsnap t) k) (hbi t)) as [Eb|Nb].
+      * destruct (Nat.eqb_spec (hsnap t) (hcur s)) as [E|Hne].
+        -- split; [lia|]. rewrite E, (iv_spec s I). symmetry. apply (r_spec s R).
+        -- assert (Hl : hsnap t < hcur s) by lia. destruct (r_froz s R _ Hl) as [Hf Hst]. specialize (H3 Hl).
+           split; [lia|]. symmetry. apply Hst.
+      * apply H5. lia.
+    + eapply (hr_frame s _ i t); [exact R|exact Hi|reflexivity|reflexivity|reflexivity|reflexivity|reflexivity|reflexivity|reflexivity
+        |cbn [set_pc hpc_]; pcd|cbn [set_pc hpc_]; pcd|unfold applied; cbn [set_pc hpc_ happ hretry]; rewrite (r_app s R i t Hi); unfold applied; rewrite Hp; reflexivity
+        |].
+      intros _. unfold iter_ok. cbn [set_pc hpc_ hst hsnap hbi hwitf hyield].
+      split; [exact H1|]. split; [exact H2|]. split; [exact H3|]. split; [intros _; exact Hge|exact H5].
+  - (* IDone *) exact R.
 Qed.
 
 Lemma HRInv_init n0 ops : HRInv (hinit n0 ops).
 Proof.
-  assert (Hall : forall j t, nth_error (hths (hinit n0 ops)) j = Some t -> (hpc_ t = W0 \/ hpc_ t = G0) /\ happ t = 0).
+  assert (Hall : forall j t, nth_error (hths (hinit n0 ops)) j = Some t -> pc_in (hpc_ t) [W0; G0; I0] = true /\ happ t = 0).
   { intros j t Hj. apply nth_error_In in Hj. cbn [hinit hths] in Hj. apply in_map_iff in Hj.
-    destruct Hj as ([k [f|]] & <- & _); (split; [|reflexivity]); [left|right]; reflexivity. }
+    destruct Hj as ([k f|k|] & <- & _); split; reflexivity. }
   constructor.
   - reflexivity.
   - cbn. lia.
   - intros k. reflexivity.
   - intros g Hg. cbn in Hg. lia.
-  - intros j t Hj Hp. destruct (Hall j t Hj) as [[E|E] _]; rewrite E in Hp; discriminate Hp.
-  - intros j t Hj Hp. destruct (Hall j t Hj) as [[E|E] _]; rewrite E in Hp; discriminate Hp.
-  - intros j t Hj. destruct (Hall j t Hj) as [[E|E] ->]; unfold applied; rewrite E; reflexivity.
+  - intros j t Hj Hp. destruct (Hall j t Hj) as [E _]. rewrite Hp in E. discriminate E.
+  - intros j t Hj Hp. destruct (Hall j t Hj) as [E _]. rewrite Hp in E. discriminate E.
+  - intros j t Hj. destruct (Hall j t Hj) as [E ->]. unfold applied. destruct (hpc_ t); try discriminate E; reflexivity.
+  - intros j t Hj Hp. destruct (Hall j t Hj) as [E _]. destruct (hpc_ t); discriminate.
 Qed.
 
 Lemma both_run sched : forall s, HCInv s -> HRInv s -> HCInv (hrun hidx s sched) /\ HRInv (hrun hidx s sched).
@@ -693,6 +770,39 @@ Proof.
   intros Hn s Hj Hp Hst. destruct (conc_read_regular n0 ops sched j t Hn Hj Hp) as [Hw Hv]. fold s in Hw, Hv.
   destruct (both_run sched _ (HCInv_init n0 ops Hn) (HRInv_init n0 ops)) as [_ R]. fold s in R.
   rewrite (r_spec s R). rewrite <- Hv. f_equal. lia.
+Qed.
+
+(* a finished iteration: every key was yielded (or not) as it was bound (or not) in the abstract map at
+   some moment between the iteration's table load and its end *)
+Theorem conc_iter_sound n0 ops sched j t : 1 <= n0 ->
+  let s := hrun hidx (hinit n0 ops) sched in
+  nth_error (hths s) j = Some t -> hpc_ t = IDone ->
+  forall k, hst t - 1 <= hwitf t k < length (hist s) /\ nth (hwitf t k) (hist s) dflt k = hyield t k.
+Proof.
+  intros Hn s Hj Hp k. destruct (both_run sched _ (HCInv_init n0 ops Hn) (HRInv_init n0 ops)) as [I R]. fold s in I, R.
+  assert (Hq : pc_in (hpc_ t) [I1; IDone] = true) by (rewrite Hp; reflexivity).
+  destruct (r_it s R j t Hj Hq) as (_ & _ & _ & H4 & H5). apply H5.
+  pose proof (bidx_lt s (hsnap t) k (iv_len s I)). specialize (H4 Hp). lia.
+Qed.
+
+(* ... so a key present during the whole iteration is yielded, with a binding it had meanwhile *)
+Corollary conc_iter_complete n0 ops sched j t k : 1 <= n0 ->
+  let s := hrun hidx (hinit n0 ops) sched in
+  nth_error (hths s) j = Some t -> hpc_ t = IDone ->
+  (forall w, hst t - 1 <= w < length (hist s) -> nth w (hist s) dflt k <> None) -> hyield t k <> None.
+Proof.
+  intros Hn s Hj Hp Hall. destruct (conc_iter_sound n0 ops sched j t Hn Hj Hp k) as [Hw Hv]. fold s in Hw, Hv.
+  rewrite <- Hv. apply Hall. exact Hw.
+Qed.
+
+(* ... and a key absent during the whole iteration (removed before it began, not re-inserted) is not *)
+Corollary conc_iter_no_ghost n0 ops sched j t k : 1 <= n0 ->
+  let s := hrun hidx (hinit n0 ops) sched in
+  nth_error (hths s) j = Some t -> hpc_ t = IDone ->
+  (forall w, hst t - 1 <= w < length (hist s) -> nth w (hist s) dflt k = None) -> hyield t k = None.
+Proof.
+  intros Hn s Hj Hp Hall. destruct (conc_iter_sound n0 ops sched j t Hn Hj Hp k) as [Hw Hv]. fold s in Hw, Hv.
+  rewrite <- Hv. apply Hall. exact Hw.
 Qed.
 
 End Proofs.
